@@ -383,7 +383,8 @@ func runtimeCross(c *fw.Ctx, fs []*bindfacts.Facts, only *replayCase) error {
 			bad++
 			e := byKey[m.ID]
 			if e == nil {
-				continue
+				// the exercise of the interpreters itself failed: the machinery's problem, not a binding's
+				return fmt.Errorf("run-time cross-check: %s: %s", m.ID, m.What)
 			}
 			c.Fail(fmt.Sprintf("%s %s[%s]", e.File, e.Key, e.Name), "run-time: "+m.What,
 				replayCase{Invariant: "RunTime", Table: e.Table, Rel: e.Rel, Plat: e.Plat, File: e.File, Key: e.Key, Name: e.Name, Fact: e, Reference: m.What})
@@ -414,9 +415,10 @@ func exercise() {
 				fmt.Printf("BAD {\"ID\":\"exercise\",\"What\":%q}\n", err.Error())
 			}
 		}
-		_, err := i.Eval("import (\"fmt\"; \"log\"; \"os\")\nfunc run() { fmt.Println(os.Getenv(\"K\"), os.Args); log.Print(\"x\"); os.Setenv(\"Z\", \"1\") }\nrun()")
-		if err != nil {
-			fmt.Printf("BAD {\"ID\":\"exercise\",\"What\":%q}\n", err.Error())
+		for _, chunk := range []string{"import (\"fmt\"; \"log\"; \"os\")\nfunc run() { fmt.Println(os.Getenv(\"K\"), os.Args); log.Print(\"x\"); log.Default().Print(\"y\"); os.Setenv(\"Z\", \"1\") }", "run()"} {
+			if _, err := i.Eval(chunk); err != nil {
+				fmt.Printf("BAD {\"ID\":\"exercise\",\"What\":%q}\n", err.Error())
+			}
 		}
 	}
 }
